@@ -1,9 +1,12 @@
 import Mkdb.Proofs.Csv
+import Mkdb.Proofs.CsvEngine4
 /-!
 # C19 — CSV import stores every accepted record faithfully
 
 Property theorems only.  Quantifier: every destination schema, mapping and record stream
-(records the CSV reader rejects are `none`).
+(records the CSV reader rejects are `none`).  The first part is about the importer's own model, in which
+the table is a list of rows; the second part (`…_on_the_engine`) ties it to the engine model and the plain
+database: the same statements about `Engine.evalInsert` on a database that satisfies the invariant `DbInv`.
 -/
 namespace Mkdb.Csv
 open Mkdb.Tuple
@@ -84,5 +87,219 @@ theorem C19_convert (cfg : Cfg) (types : List DataType) (rec : List Bytes) (row 
 
 example : importRecord ⟨[⟨"a", .bigint, 0⟩, ⟨"b", .varchar, 255⟩], ["b", "a"], [1, 0]⟩ [.varchar, .bigint]
     (some [[49, 50, 51], [120]]) = some [.int 123, .str [120]] := by decide
+
+
+/-! ## The import on the engine model and the plain database
+
+The real program calls `engine.EvaluateInsert` with a one-row statement per accepted record, handing it Go
+VALUES (`int64`, `bool`, `string`, `nil`), not SQL text.  `importOnDb` (Proofs/CsvEngine2) is that loop on the
+engine model: `Engine.evalInsert` on `Tuple.Val`s (NULL included - a parsed statement has no NULL literal,
+so `evalStmt` would not do), going on after an error with the database the error left.  Column names are
+`String`s in the importer's model (hence valid UTF-8); the engine model and the plain model take their
+bytes (`colBytes`) and decode them again (`Engine.bytesToName` / `Spec.nameStr`): a round trip. -/
+section engine
+open Mkdb.Store Mkdb.Tree
+
+/-- **C19.insert_row_is_the_plain_insert**: the importer model's local single-row INSERT (`Csv.insertRow`:
+row codec, name check, size limit) and the plain model's row construction agree.  On a table whose columns
+have distinct names (every table of a database in use: `DbInv.cols_nodup`), for a NON-EMPTY list of column
+names (`String`s, i.e. valid UTF-8: the plain model is handed their bytes, `colBytes`, and decodes them
+again) and values a Go program can hold, `Csv.insertRow` accepts exactly when the column list passes the
+plain model's test (`Spec.namesOK`: only columns of the table, none twice - `Spec.rowOf` alone does not
+look at that) and `Spec.rowOf` builds a row; and it is the same row.  So they agree on duplicate
+destination columns (both refuse), on a column list shorter than the schema (unnamed columns NULL), and at
+the size limit (400 bytes accepted, 401 refused, by both).  Excluded by `hne`: the EMPTY column list, on
+which they differ - `C19_insert_row_empty_column_list_gap`. -/
+theorem C19_insert_row_is_the_plain_insert (tb : Spec.STable) (cols : List String) (vals row : List Val)
+    (hnd : (tb.cols.map (·.name)).Nodup) (hvals : ∀ v ∈ vals, ValidVal v) (hne : cols ≠ []) :
+    insertRow tb.cols cols vals = some row ↔
+      Spec.namesOK tb cols = true ∧ Spec.rowOf tb (cols.map colBytes) vals = some row :=
+  insertRow_iff_rowOf tb cols vals row hnd hvals hne
+
+/-- non-vacuity: table `(a BIGINT, b VARCHAR(255), c BOOLEAN)`, columns `b, a`, values `'x', 123` -/
+example : ((⟨[116], exCfg.schema, []⟩ : Spec.STable).cols.map (·.name)).Nodup ∧
+    (∀ v ∈ [Val.str [120], .int 123], ValidVal v) ∧ exCfg.dstCols ≠ [] ∧
+    insertRow exCfg.schema exCfg.dstCols [.str [120], .int 123] = some [.int 123, .str [120], .null] := by
+  refine ⟨by decide, ?_, by decide, by decide⟩
+  intro v hv
+  simp only [List.mem_cons, List.not_mem_nil, or_false] at hv
+  rcases hv with rfl | rfl
+  · show ([120] : Bytes).length < 2 ^ 32; decide
+  · exact ⟨by decide, by decide⟩
+
+/-- **C19.insert_row_is_the_plain_insert_statement**: the plain model's one-row `INSERT INTO t (cols)
+VALUES (vals)` is `Csv.insertRow`: refused together, accepted together, and the plain database afterwards is
+the old one with `Csv.insertRow`'s row appended to the table (`addRows`).  Hypotheses as above. -/
+theorem C19_insert_row_is_the_plain_insert_statement {sdb : Spec.SDB} {table : Bytes} {tb : Spec.STable}
+    (hf : Spec.findTable sdb table = some tb) (cols : List String) (vals : List Val)
+    (hnd : (tb.cols.map (·.name)).Nodup) (hvals : ∀ v ∈ vals, ValidVal v) (hne : cols ≠ []) :
+    Spec.specInsert sdb table (cols.map colBytes) [vals] =
+      (insertRow tb.cols cols vals).map fun row => addRows sdb table [row] :=
+  specInsert_one_iff hf cols vals hnd hvals hne
+
+/-- non-vacuity: `INSERT INTO t (a) VALUES (5)` on the plain database with the one empty table `t (a INT)` -/
+example : Spec.findTable sdbA0 tname = some ⟨tname, schemaA, []⟩ ∧
+    ((⟨tname, schemaA, []⟩ : Spec.STable).cols.map (·.name)).Nodup ∧ (∀ v ∈ [Val.int 5], ValidVal v) ∧
+    (["a"] : List String) ≠ [] ∧
+    insertRow schemaA ["a"] [.int 5] = some [.int 5] := by
+  refine ⟨rfl, by decide, ?_, by decide, by decide⟩
+  intro v hv
+  simp only [List.mem_singleton] at hv
+  subst hv
+  exact ⟨by decide, by decide⟩
+
+/-- **C19.insert_row_empty_column_list_gap** (a gap of the importer's model, found by this comparison): with
+the EMPTY destination column list `Csv.insertRow` names no column and stores a row of NULLs, while
+`RelationService.Insert` (storage/relation.go, `len(cols) == 0`), the engine model and `Spec.rowOf` fill in
+ALL the columns of the table and refuse the row for its number of values.  Not reachable from the command
+line - `strings.Split` never returns an empty list and an empty `-src-cols` fails `strconv.Atoi` - so it is
+a gap of the model `Csv.insertRow` (whose `Cfg` allows `dstCols = []`), not a defect of the program. -/
+theorem C19_insert_row_empty_column_list_gap :
+    insertRow [⟨"a", .int, 0⟩] [] [] = some [.null] ∧
+    Spec.rowOf ⟨[116], [⟨"a", .int, 0⟩], []⟩ ([].map colBytes) [] = none :=
+  insertRow_nocols_differs
+
+/-- **C19.import_on_the_engine** (the conclusion of `C19_import`, now about the database).  Let the
+database satisfy the invariant `DbInv` for a plain database `sdb` in which the destination table exists with
+the columns `cfg.schema`.  Side conditions, explicit: a non-empty destination column list (`hne`, see the
+gap above); CSV fields that are strings a Go program can hold (`FieldsFit`: below 2^32 bytes - with it every
+converted value fits its Go type, the literal part of `StmtRoom`); the fuel / size room of each accepted
+one-row INSERT in the database reached at that point (`ImportRoom`, the room part of `StmtRoom`; met whenever
+there is room at the start, `C19_import_room_from_sizes`).  Then the import loop on the engine model
+never crashes; it sends an error event exactly for the records `importRecord` rejects (`true` in the list);
+the database at the end satisfies `DbInv` for the plain database with the rows of the accepted records
+appended to the table (`addRows`): the table holds its old rows followed by
+`recs.filterMap (importRecord cfg types)`, every other table is untouched; and a reader (`Fetch`, the source
+of every SELECT - `C17_contents_are_what_a_reader_sees`) sees the table with its declared columns and
+exactly the rows `importAll` computes from the old rows (by `C19_import`: the old rows followed by the
+accepted records' rows, in input order) - now, after the flush, after eviction and reload, and after
+restart (`ReadsDurably`) - and every other table as before. -/
+theorem C19_import_on_the_engine (cfg : Cfg) (types : List DataType) (table : Bytes)
+    (recs : List (Option (List Bytes)))
+    (db : Engine.DB) (sdb : Spec.SDB) (pt sch : Levels) (tbls : List (Bytes × Levels)) (tb : Spec.STable)
+    (h : DbInv db sdb pt sch tbls) (hfind : Spec.findTable sdb table = some tb) (hcols : tb.cols = cfg.schema)
+    (hne : cfg.dstCols ≠ []) (hfit : FieldsFit recs) (hroom : ImportRoom cfg types table db recs) :
+    ∃ db' pt' tbls',
+      importOnDb cfg types table db recs = some (db', recs.map fun r => (importRecord cfg types r).isNone) ∧
+      DbInv db' (addRows sdb table (recs.filterMap (importRecord cfg types))) pt' sch tbls' ∧
+      Spec.findTable (addRows sdb table (recs.filterMap (importRecord cfg types))) table =
+        some { tb with rows := tb.rows ++ (recs.filterMap (importRecord cfg types)).map fun v => ⟨none, v⟩ } ∧
+      (∀ t, t ≠ table → Spec.findTable (addRows sdb table (recs.filterMap (importRecord cfg types))) t =
+        Spec.findTable sdb t) ∧
+      ReadsDurably db' table cfg.schema (importAll cfg types (tb.rows.map (·.vals)) recs) ∧
+      (∀ t tb', t ≠ table → Spec.findTable sdb t = some tb' →
+        ReadsDurably db' t tb'.cols (tb'.rows.map (·.vals))) :=
+  import_on_engine cfg types table recs db sdb pt sch tbls tb h hfind hcols hne hfit hroom
+
+/-- non-vacuity: the database `CREATE DATABASE; CREATE TABLE t (a INT)` leaves (`tableDB`, computed by the
+model), destination column `a` fed from field 0, the records `5`, `2147483648`, `7` -/
+example : DbInv tableDB sdbA0 ptT schT [(tname, tT)] ∧
+    Spec.findTable sdbA0 tname = some ⟨tname, schemaA, []⟩ ∧
+    (⟨tname, schemaA, []⟩ : Spec.STable).cols = exCfgT.schema ∧ exCfgT.dstCols ≠ [] ∧ FieldsFit recs3 ∧
+    ImportRoom exCfgT [.int] tname tableDB recs3 :=
+  ⟨dbFlushed_tableDB.inv, rfl, rfl, by decide, recs3_fit, recs3_room⟩
+
+/-- **C19.import_room_from_sizes**: the side condition `ImportRoom` holds whenever the table has room at the
+start (`RoomFor`: the store abstracts to some plain database under a catalog description in which the
+table's tree is as many levels and leaves short of the fuel of the descents and scans (64, 100000) as
+there are records, and the allocation frontier is that many times 64 pages below 2^63) - whatever the
+records, the mapping, and the outcome of each record.  A sufficient condition only: it covers every fresh
+table and every import of up to about 60 records; for longer imports `ImportRoom` has to be established
+along the run, as `HistOK` for histories of statements. -/
+theorem C19_import_room_from_sizes (cfg : Cfg) (types : List DataType) (table : Bytes)
+    (recs : List (Option (List Bytes))) (db : Engine.DB) (hfit : FieldsFit recs)
+    (hroom : RoomFor db table recs.length) : ImportRoom cfg types table db recs :=
+  importRoom_of_sizes cfg types table recs db hfit hroom
+
+/-- non-vacuity: `tableDB` has room for three one-row INSERTs into `t` -/
+example : FieldsFit recs3 ∧ RoomFor tableDB tname recs3.length := ⟨recs3_fit, roomFor_tableDB⟩
+
+/-- **C19.bad_record_harmless_on_the_engine** (`C19_bad_record_harmless`, on the database): run the import
+with a record `importRecord` rejects in the input, and without it, from the same database (hypotheses of
+`C19_import_on_the_engine` for both inputs).  Neither run crashes; the error events are the same except for
+the one of the bad record; both runs end in databases that satisfy the invariant for THE SAME plain database;
+and a reader sees the same rows in the table after both - the old rows followed by the rows of the other
+records' accepted ones, in input order - durably.  The bad record neither prevents, alters nor duplicates
+the others. -/
+theorem C19_bad_record_harmless_on_the_engine (cfg : Cfg) (types : List DataType) (table : Bytes)
+    (before after : List (Option (List Bytes))) (bad : Option (List Bytes))
+    (db : Engine.DB) (sdb : Spec.SDB) (pt sch : Levels) (tbls : List (Bytes × Levels)) (tb : Spec.STable)
+    (h : DbInv db sdb pt sch tbls) (hfind : Spec.findTable sdb table = some tb) (hcols : tb.cols = cfg.schema)
+    (hne : cfg.dstCols ≠ []) (hfit : FieldsFit (before ++ bad :: after))
+    (hroom1 : ImportRoom cfg types table db (before ++ bad :: after))
+    (hroom2 : ImportRoom cfg types table db (before ++ after))
+    (hbad : importRecord cfg types bad = none) :
+    ∃ db1 pt1 tbls1 db2 pt2 tbls2 sdb' errsB errsA rows,
+      importOnDb cfg types table db (before ++ bad :: after) = some (db1, errsB ++ true :: errsA) ∧
+      importOnDb cfg types table db (before ++ after) = some (db2, errsB ++ errsA) ∧
+      errsB.length = before.length ∧
+      DbInv db1 sdb' pt1 sch tbls1 ∧ DbInv db2 sdb' pt2 sch tbls2 ∧
+      ReadsDurably db1 table cfg.schema rows ∧ ReadsDurably db2 table cfg.schema rows ∧
+      rows = tb.rows.map (·.vals) ++ (before ++ after).filterMap (importRecord cfg types) :=
+  bad_record_harmless_on_engine cfg types table before after bad db sdb pt sch tbls tb h hfind hcols hne hfit
+    hroom1 hroom2 hbad
+
+/-- non-vacuity: on `tableDB`, the record `2147483648` (an int64 the INT column refuses: rejected BY THE
+ENGINE, not by the conversion) between the records `5` and `7` -/
+example : FieldsFit ([some [[53]]] ++ some [[50, 49, 52, 55, 52, 56, 51, 54, 52, 56]] :: [some [[55]]]) ∧
+    ImportRoom exCfgT [.int] tname tableDB
+      ([some [[53]]] ++ some [[50, 49, 52, 55, 52, 56, 51, 54, 52, 56]] :: [some [[55]]]) ∧
+    ImportRoom exCfgT [.int] tname tableDB ([some [[53]]] ++ [some [[55]]]) ∧
+    importRecord exCfgT [.int] (some [[50, 49, 52, 55, 52, 56, 51, 54, 52, 56]]) = none :=
+  ⟨recs3_fit, recs3_room,
+    importRoom_of_sizes exCfgT [.int] tname _ tableDB
+      (fun rec hm => recs3_fit rec (by
+        simp only [List.cons_append, List.nil_append, List.mem_cons, List.not_mem_nil, or_false] at hm
+        simp only [recs3, List.mem_cons, List.not_mem_nil, or_false]
+        rcases hm with h | h
+        · exact .inl h
+        · exact .inr (.inr h)))
+      (roomFor_tableDB.mono (by decide)),
+    by decide⟩
+
+/-- **C19.accepted_records_in_input_order** (on the database): after the import a reader sees, durably, a
+table with one row more per accepted record and none for a rejected one; the old rows are where they
+were, unchanged; and the row of every accepted record sits after them at the position given by the number
+of accepted records BEFORE it in the input - so accepted records appear in input order, each exactly once.
+Hypotheses of `C19_import_on_the_engine`. -/
+theorem C19_accepted_records_in_input_order (cfg : Cfg) (types : List DataType) (table : Bytes)
+    (recs : List (Option (List Bytes)))
+    (db : Engine.DB) (sdb : Spec.SDB) (pt sch : Levels) (tbls : List (Bytes × Levels)) (tb : Spec.STable)
+    (h : DbInv db sdb pt sch tbls) (hfind : Spec.findTable sdb table = some tb) (hcols : tb.cols = cfg.schema)
+    (hne : cfg.dstCols ≠ []) (hfit : FieldsFit recs) (hroom : ImportRoom cfg types table db recs) :
+    ∃ db' rows,
+      importOnDb cfg types table db recs = some (db', recs.map fun r => (importRecord cfg types r).isNone) ∧
+      ReadsDurably db' table cfg.schema rows ∧
+      rows.length = tb.rows.length + (recs.filter fun r => (importRecord cfg types r).isSome).length ∧
+      (∀ (k : Nat) (row : List Val), (tb.rows.map (·.vals))[k]? = some row → rows[k]? = some row) ∧
+      ∀ (l1 l2 : List (Option (List Bytes))) (r : Option (List Bytes)) (row : List Val),
+        recs = l1 ++ r :: l2 → importRecord cfg types r = some row →
+        rows[tb.rows.length + (l1.filter fun r => (importRecord cfg types r).isSome).length]? = some row :=
+  accepted_in_input_order cfg types table recs db sdb pt sch tbls tb h hfind hcols hne hfit hroom
+
+/-- non-vacuity: the same input as for `C19_import_on_the_engine`; the accepted record `7` has one accepted
+record before it and lands at position 0 + 1 -/
+example : DbInv tableDB sdbA0 ptT schT [(tname, tT)] ∧ FieldsFit recs3 ∧
+    ImportRoom exCfgT [.int] tname tableDB recs3 ∧
+    recs3 = [some [[53]], some [[50, 49, 52, 55, 52, 56, 51, 54, 52, 56]]] ++ some [[55]] :: [] ∧
+    importRecord exCfgT [.int] (some [[55]]) = some [.int 7] :=
+  ⟨dbFlushed_tableDB.inv, recs3_fit, recs3_room, rfl, by decide⟩
+
+/-- **C19.import_example_on_tableDB** (non-vacuity, computed by the kernel on the database the model
+computes for `CREATE DATABASE; CREATE TABLE t (a INT)`): the records `5`, `2147483648`, `7` for the column
+`a`.  `csvToSql` converts all three (the second is an int64); `Csv.insertRow` - and the engine, with
+`ErrIntOutOfRange` (`recs3ErrCheck`) - refuse the second.  Kernel evaluation of the loop on the engine model
+(`recs3Check`): error events `[false, true, false]`, `Fetch` of `t` then returns the column `a` and the rows
+`(5)`, `(7)`, the log holds two records.  And `C19_import_on_the_engine` applies (all its hypotheses
+hold): the same outcome, read back durably. -/
+theorem C19_import_example_on_tableDB :
+    recs3.map (recordVals exCfgT [.int]) = [some [.int 5], some [.int 2147483648], some [.int 7]] ∧
+    recs3.map (importRecord exCfgT [.int]) = [some [.int 5], none, some [.int 7]] ∧
+    recs3Check = true ∧ recs3ErrCheck = true ∧
+    ∃ db', importOnDb exCfgT [.int] tname tableDB recs3 = some (db', [false, true, false]) ∧
+      ReadsDurably db' tname schemaA [[.int 5], [.int 7]] :=
+  ⟨recs3_vals, recs3_rows, recs3_check.1, recs3_check.2, recs3_import⟩
+
+end engine
 
 end Mkdb.Csv
